@@ -12,7 +12,7 @@ from ..common import rng_for, close
 
 OPTIMIZED_SHARDS = 1  # shards run once more in an interpreter started with -O (vf/run.py)
 LEVEL = "exploration"
-TECHNIQUE = "runtime monitors on Deltas.apply / Stack.apply with explicit-loop reference models (Kaldi delta recursion, stacking loops) and a read-only/digest write sanitizer"
+TECHNIQUE = "runtime monitors on Deltas.apply / Stack.apply with explicit-loop reference models (Kaldi delta recursion, stacking loops) and a read-only/digest write sanitizer; ambient-settings monitor (stateless calls repeated under -W error and np.errstate raise)"
 RULE = (
     "cases: seeded N-D shapes (1-4 dims, sizes from {0,1,2,3,5,8,13} with 0 only on non-filtered axes), every axis / target_axis / time_axis "
     "value incl. negative, num_deltas 0-4, context windows 1-5, pad modes edge/constant/reflect/symmetric/wrap (+ linear_ramp, mean/median/maximum/minimum, a callable for Deltas), num_vectors 1-6 incl. > frames, "
